@@ -41,6 +41,13 @@ Proof.
     with (set_all s (pset (full_name (set_all s a) o) o a)).
   rewrite (full_name_objs (set_all s a) s o) by reflexivity. apply IH.
 Qed.
+Lemma pset_same k v l : pget k l = Some v -> pset k v l = l.
+Proof.
+  induction l as [|[k' v'] l IH]; cbn [pset pget]; [discriminate|].
+  destruct (path_eqb k' k) eqn:E; [|intros H; rewrite (IH H); reflexivity].
+  intros H. inversion H; subst v'. apply path_eqb_eq in E. subst k'. reflexivity.
+Qed.
+
 Lemma register_spec l s :
   register s l = set_all s (fold_left (fun a o => pset (full_name s o) o a) l (allobjs s)).
 Proof. unfold register. rewrite <- (set_all_id s) at 1. apply register_gen. Qed.
@@ -413,6 +420,50 @@ Section Move.
     assert (Hnm1x : nm1 x = n /\ par1 x = Some Rm) by (unfold nm1, par1; rewrite oid_eqb_refl; auto).
     destruct Hnm1x as [Hn1x Hp1x].
     fold s6.
+    (* the second _handle_reparenting_post re-assigns the keys the first one wrote *)
+    assert (Hsub6 : subtree s6 x = x :: cs).
+    { unfold subtree. change (dfuel s6) with (dfuel s). rewrite (oa_fuel _ _ _ _ _ HA). unfold depth_fuel. rewrite Nat.add_comm.
+      cbn [Nat.add subtree_f]. f_equal.
+      assert (Ecx : contents_of s6 x = o_contents xb).
+      { unfold contents_of. rewrite O6, (oid_eqb_neq x Rm HxR), (oid_eqb_neq x Dm HxD), oid_eqb_refl. exact X4. }
+      rewrite Ecx. unfold cs.
+      assert (Hgen : forall l : list (N * oid), (forall kc, In kc l -> contents_of s6 (snd kc) = []) ->
+                               flat_map (fun c => subtree_f (3 + length p) s6 (snd c)) l = map snd l).
+      { induction l as [|kc l IH]; intros Hl; cbn [flat_map map]; [reflexivity|].
+        rewrite IH by (intros kc' Hin; apply Hl; right; exact Hin).
+        cbn [Nat.add subtree_f]. rewrite (Hl kc (or_introl eq_refl)). reflexivity. }
+      apply Hgen. intros kc Hin.
+      assert (Hc : In (snd kc) cs) by (unfold cs; apply in_map; exact Hin).
+      pose proof (Hleaf _ Hc) as Hl0. apply Hcs in Hc. destruct Hc as [_ Pc]. pose proof (member_third _ Pc) as H3.
+      unfold contents_of in Hl0 |- *. rewrite O6.
+      rewrite (oid_eqb_neq (snd kc) Rm) by (intros E; rewrite E in H3; apply H3; reflexivity).
+      rewrite (oid_eqb_neq (snd kc) Dm) by (intros E; rewrite E in H3; apply H3; reflexivity).
+      rewrite (oid_eqb_neq (snd kc) x) by (intros E; rewrite E in H3; apply H3; reflexivity).
+      exact Hl0. }
+    assert (Hfn6 : forall o, C o -> full_name s6 o = key1 o).
+    { apply (full_name_expected p nm1 par1 C s6).
+      - change (dfuel s6) with (dfuel s). apply (oa_fuel _ _ _ _ _ HA).
+      - intros o Co. destruct (Hex o Co) as (ob & Eo). destruct (sobj p o) as [si|] eqn:Es; [|exfalso; apply (oa_dom _ _ _ _ _ HA o Co); exact Es].
+        destruct (oa_static _ _ _ _ _ HA o ob si Eo Es) as (_ & _ & Hn & Hp & _). rewrite O6.
+        destruct (oid_eqb o Rm) eqn:E1.
+        { apply oid_eqb_eq in E1. subst o. rewrite Er in Eo. inversion Eo; subst ob. exists rb'.
+          destruct (Hne_x Rm (fun e => HxR (eq_sym e))) as [-> ->]. unfold rb'. cbn [with_contents o_name o_parent]. auto. }
+        destruct (oid_eqb o Dm) eqn:E2.
+        { apply oid_eqb_eq in E2. subst o. rewrite Ed in Eo. inversion Eo; subst ob. exists db2.
+          destruct (Hne_x Dm (fun e => HxD (eq_sym e))) as [-> ->]. unfold db2, db1. cbn [with_alias with_contents o_name o_parent]. auto. }
+        destruct (oid_eqb o x) eqn:E3.
+        { apply oid_eqb_eq in E3. subst o. exists xb'. rewrite X7, X8, Hn1x, Hp1x. auto. }
+        exists ob. destruct (Hne_x o) as [-> ->]; [intros ->; rewrite oid_eqb_refl in E3; discriminate|]. auto.
+      - intros o q Co. unfold par1. destruct (oid_eqb o x); [intros E; inversion E; exact CR|apply (oa_closed _ _ _ _ _ HA); exact Co]. }
+    assert (Hreg2 : register s6 (subtree s6 x) = s6).
+    { rewrite Hsub6, (register_spec (x :: cs) s6). change (allobjs s6) with A3.
+      assert (Hg : forall l, (forall o, In o l -> C o) -> fold_left (fun a o => pset (full_name s6 o) o a) l A3 = A3).
+      { induction l as [|o l IH]; intros Hl; cbn [fold_left]; [reflexivity|].
+        rewrite (Hfn6 o (Hl o (or_introl eq_refl))).
+        rewrite (pset_same (key1 o) o A3) by (apply Hreg; split; [apply Hl; left; reflexivity|reflexivity]).
+        apply IH. intros o' Ho'. apply Hl. right. exact Ho'. }
+      rewrite (Hg (x :: cs) HCsub). exact (set_all_id s6). }
+    change (set_obj s5 Rm (with_contents (nset n x (o_contents rb)) rb)) with s6. rewrite Hreg2.
     split; [|split; [|split; [|split]]].
     - (* objects *)
       constructor.
